@@ -611,6 +611,12 @@ func body(w *hx.W) {
 	if w.Shard == 0 {
 		credentialPolicy(w)
 	}
+	if w.Shard == 1%w.NShards {
+		osServerTransports(w)
+	}
+	if w.Shard == 2%w.NShards {
+		osClientDialStartTLS(w)
+	}
 	kit.SyncTimeout = 60 * time.Second
 	serverSide(w)
 	clientSide(w)
